@@ -54,6 +54,7 @@ def build(eng, tier):
     build_unused_removal(eng)
     build_unused_initializers(eng)
     build_output_fix(eng)
+    build_constant_lifting(eng)
 
 
 def build_identity(eng):
@@ -416,4 +417,74 @@ def build_output_fix(eng):
                                        "it[m][0] is box(graph._outputs.data)[it[m][1]]))",
                                        "forall(lambda m=int, n=int: implies(0 <= m and m < n and n < len(it), it[m][1] < it[n][1]))"],
                    modifies=None)},
+        ensures=[], raises_default=[], modifies=None, assert_mode="raise"))
+
+
+def build_constant_lifting(eng):
+    """LiftConstantsToInitializersPass.call: the output of a node is only ever replaced by an initializer when the node is a
+    Constant of the standard domain whose output is not a graph output, and the initializer holds the tensor that
+    _constant_node_attribute_to_tensor built for THAT node (ghost precondition on Value.replace_all_uses_with at this site).
+    `denotes(t, n)` - tensor t is the value Constant node n produces - is the assumed contract of
+    _constant_node_attribute_to_tensor (it maps each of the seven value_* attribute kinds to the tensor of that value)."""
+    from pyvc.core import Exc
+    from pyvc.types import BOOL, NULL, Ref, VFunc, VNone, VOpaque, fresh_name
+    import z3
+    CM = "onnx_ir.passes.common.constant_manipulation"
+    schema.core_ir(eng)
+    eng.declare_class_from_source(CM, "LiftConstantsToInitializersPass", fields={"lift_all_constants": BOOL, "size_limit": INT})
+    denotes = z3.Function("denotes", Ref, Ref, z3.BoolSort())
+    eng.spec_ufuncs["denotes"] = (denotes, BOOL)
+    if "Model" not in eng.classes:
+        schema.opaque_class(eng, "Model")
+    eng.classes["Model"].fields.setdefault("graph", TRef("Graph"))
+    KEEP = "unchanged('Node._op_type', 'Node._domain', 'Node._outputs', 'Value._producer', 'Value._is_graph_output', 'Value._const_value')"
+    to_tensor = FnDecl(f"{CM}.LiftConstantsToInitializersPass._constant_node_attribute_to_tensor", "contract", CM,
+        "LiftConstantsToInitializersPass._constant_node_attribute_to_tensor",
+        requires=[], ensures=["result is None or denotes(result, node)", KEEP], ret=TRef("TensorLike"), raises={"AnyException": [KEEP]}, modifies=["$alloc"])
+    rauw = FnDecl(f"{CORE}.Value.replace_all_uses_with", "contract", CORE, "Value.replace_all_uses_with",
+        # GHOST PRECONDITION: self is the (non-output) result of a standard-domain Constant node and the replacement holds the
+        # tensor that node denotes
+        requires=["nonnull(replacement)", "nonnull(self._producer)", "self._producer._op_type == 'Constant'",
+                  "self._producer._domain == '' or self._producer._domain == 'onnx.ai'",
+                  "len(self._producer._outputs) >= 1 and self._producer._outputs[0] is self", "not self._is_graph_output",
+                  "nonnull(replacement._const_value) and denotes(replacement._const_value, self._producer)"],
+        ensures=[KEEP], raises={"AnyException": []}, modifies=None)
+
+    def fresh_nodes(e, p, args, kwargs, node):
+        v = e.symbolic_param(p, fresh_name("all_nodes"), TSeq(TRef("Node")))
+        i = z3.Int(fresh_name("qi"))
+        p.assume(v.len >= 0)
+        p.assume(z3.ForAll([i], z3.Implies(z3.And(0 <= i, i < v.len), v.at(i).z != NULL)))
+        return [(p, v)]
+
+    def new_value(e, p, args, kwargs, node):
+        v = e.new_object(p, "Value")
+        e.write_field(p, v, "_const_value", kwargs.get("const_value"))
+        e.write_field(p, v, "_name", kwargs.get("name"))
+        return [(p, v), (p.copy(), Exc("AnyException", f"L{node.lineno}:ir.Value"))]
+
+    def setup(e, p, env):
+        e.lenient = True
+        e.functions[to_tensor.fqn] = to_tensor
+        e.functions[f"{CORE}.Value.replace_all_uses_with"] = rauw
+        for nm in ("register_initializer", "remove"):
+            e.functions[f"{CORE}.Graph.{nm}"] = FnDecl(f"{CORE}.Graph.{nm}", "contract", CORE, f"Graph.{nm}", requires=[], ensures=[KEEP],
+                                                        raises={"AnyException": []}, modifies=None)
+        e.lib_models["c05.traversal"] = fresh_nodes
+        e.lib_models["c05.Value"] = new_value
+        orig = e.module_attr
+
+        def module_attr(m, name, p2):
+            if name == "RecursiveGraphIterator":
+                return VFunc("lib", "c05.traversal", name)
+            if name == "Value" and m.name in ("onnx_ir", "ext:onnx_ir"):
+                return VFunc("lib", "c05.Value", "ir.Value")
+            return orig(m, name, p2)
+        e.module_attr = module_attr
+    eng.add_target(Target("LiftConstantsToInitializersPass.call", mod=CM, qual="LiftConstantsToInitializersPass.call",
+        self_cls="LiftConstantsToInitializersPass", params={"model": TRef("Model")}, setup=setup,
+        requires=["nonnull(model)", "forall(lambda n=Node, j=int: implies(0 <= j and j < len(n._outputs), nonnull(n._outputs[j]) and n._outputs[j]._producer is n))"],
+        loops={"for node in ir.traversal.RecursiveGraphIterator(model.graph)": LoopSpec(
+            invariant=["forall(lambda n=Node, j=int: implies(old(allocated(n)) and 0 <= j and j < len(n._outputs), nonnull(n._outputs[j]) and n._outputs[j]._producer is n))"],
+            modifies=None)},
         ensures=[], raises_default=[], modifies=None, assert_mode="raise"))
